@@ -1,12 +1,194 @@
 package main
 
 import (
+	"flag"
 	"fmt"
-	"golang.org/x/tools/go/packages"
+	"os"
+	"path/filepath"
+	"sort"
+	"strings"
 )
 
+var (
+	repoDir  = "/repo"
+	verifDir = "/verif"
+)
+
+func specFiles() []string {
+	fs, _ := filepath.Glob(filepath.Join(verifDir, "contracts", "*.spec"))
+	sort.Strings(fs)
+	return fs
+}
+
 func main() {
-	cfg := &packages.Config{Mode: packages.LoadAllSyntax &^ packages.NeedDeps | packages.NeedDeps, Dir: "/repo", BuildFlags: []string{"-tags=verif"}}
-	pkgs, err := packages.Load(cfg, "./snaps")
-	fmt.Println(len(pkgs), err)
+	if len(os.Args) < 2 {
+		fmt.Fprintln(os.Stderr, "usage: govc <check|verify|list|selfcheck> ...")
+		os.Exit(2)
+	}
+	defer cleanupWorkDir()
+	switch os.Args[1] {
+	case "verify":
+		fs := flag.NewFlagSet("verify", flag.ExitOnError)
+		fn := fs.String("func", "", "function contract name (comma separated) or 'all'")
+		lemma := fs.String("lemma", "", "lemma name")
+		dump := fs.Bool("dump", false, "dump SMT queries of failed obligations")
+		dumpAll := fs.String("dump-obl", "", "dump the SMT query of the named obligation (substring)")
+		timeout := fs.Int("timeout", 10, "per-solver timeout (s)")
+		fs.Parse(os.Args[2:])
+		code := cmdVerify(*fn, *lemma, *dump, *dumpAll, *timeout)
+		cleanupWorkDir()
+		os.Exit(code)
+	case "check":
+		fs := flag.NewFlagSet("check", flag.ExitOnError)
+		prop := fs.String("property", "", "property id")
+		tier := fs.String("tier", "quick", "quick|thorough")
+		fs.Parse(os.Args[2:])
+		code := cmdCheck(*prop, *tier)
+		cleanupWorkDir()
+		os.Exit(code)
+	case "list":
+		u, err := loadUniverse(repoDir, specFiles())
+		if err != nil {
+			fmt.Fprintln(os.Stderr, err)
+			os.Exit(2)
+		}
+		var names []string
+		for n := range u.Funcs {
+			names = append(names, n)
+		}
+		sort.Strings(names)
+		for _, n := range names {
+			mark := " "
+			if _, ok := u.Specs.Contracts[n]; ok {
+				mark = "*"
+			}
+			fmt.Printf("%s %s (%s:%d)\n", mark, n, u.Funcs[n].File, u.Funcs[n].Line)
+		}
+	default:
+		fmt.Fprintln(os.Stderr, "unknown command", os.Args[1])
+		os.Exit(2)
+	}
+}
+
+func cmdVerify(fn, lemma string, dump bool, dumpObl string, timeout int) int {
+	u, err := loadUniverse(repoDir, specFiles())
+	if err != nil {
+		fmt.Fprintln(os.Stderr, "load:", err)
+		return 2
+	}
+	p, err := buildPrelude(u)
+	if err != nil {
+		fmt.Fprintln(os.Stderr, err)
+		return 2
+	}
+	var obls []*Obligation
+	var names []string
+	if fn == "all" {
+		for n, c := range u.Specs.Contracts {
+			if _, ok := u.Funcs[n]; ok && !c.Trusted && !c.NoBody {
+				names = append(names, n)
+			}
+		}
+		sort.Strings(names)
+	} else if fn != "" {
+		names = strings.Split(fn, ",")
+	}
+	bad := 0
+	for _, n := range names {
+		fi := u.Funcs[n]
+		c := u.Specs.Contracts[n]
+		if fi == nil || c == nil {
+			fmt.Printf("ERROR %s: function or contract not found\n", n)
+			bad++
+			continue
+		}
+		os_, x, err := verifyFunction(u, fi, c)
+		if err != nil {
+			fmt.Printf("ERROR %s: %v\n", n, err)
+			bad++
+			continue
+		}
+		fmt.Printf("== %s: %d obligations (stmts seen %d lowered %d)\n", n, len(os_), x.stmtsSeen, x.stmtsLowered)
+		obls = append(obls, os_...)
+	}
+	if lemma != "" {
+		for li, l := range u.Specs.Lemmas {
+			if !l.Axiom && (lemma == "all" || l.Name == lemma) {
+				o, err := lemmaObligation(u, p, l, li)
+				if err != nil {
+					fmt.Printf("ERROR lemma %s: %v\n", l.Name, err)
+					bad++
+					continue
+				}
+				obls = append(obls, o)
+			}
+		}
+	}
+	runObligations(p, obls, timeout, false)
+	for _, o := range obls {
+		ok := obligationOK(o)
+		status := "ok  "
+		if !ok {
+			status = "FAIL"
+			bad++
+		}
+		fmt.Printf("%s %-8s %-7s %5.2fs %s\n", status, o.Res.Status, o.Res.Solver, o.Res.Seconds, o.Name)
+		if !ok && o.Text != "" {
+			fmt.Printf("       %s  [%s]\n", o.Text, o.Pos)
+		}
+		if (!ok && dump) || (dumpObl != "" && strings.Contains(o.Name, dumpObl)) {
+			fmt.Println(o.Res.Query)
+			fmt.Println(firstLines(o.Res.Output, 60))
+			if o.Res.Status == "sat" {
+				q := p.buildQuery(o, true, 0)
+				r := solve(q, o.Mode, timeout, false, false)
+				fmt.Println("MODEL:", r.Output)
+			}
+			for k, v := range o.Res.Detail {
+				fmt.Printf("   %s: %s\n", k, v)
+			}
+		}
+	}
+	if bad > 0 {
+		return 1
+	}
+	return 0
+}
+
+func obligationOK(o *Obligation) bool {
+	if o.ExpectSat {
+		return o.Res.Status != "unsat" && o.Res.Status != "error"
+	}
+	return o.Res.Status == "unsat"
+}
+
+func lemmaObligation(u *Universe, p *Prelude, l *Lemma, idx int) (o *Obligation, err error) {
+	defer func() {
+		if r := recover(); r != nil {
+			if us, ok := r.(unsupported); ok {
+				err = fmt.Errorf("%s", us.msg)
+				return
+			}
+			panic(r)
+		}
+	}()
+	st := &State{st: map[string]*Term{}, pseudo: map[string]*Term{}}
+	env := &TrEnv{x: p.gx, st: st, bound: map[string]*Term{}, lets: map[string]*Term{}}
+	env.old = env
+	if l.Pkg != "" {
+		if pk, ok := u.Pkgs[l.Pkg]; ok {
+			env.pkg = pk.Types
+		}
+	}
+	t := p.gx.trBool(l.Expr, env)
+	mode := l.Mode
+	if mode == "" {
+		mode = "ctl"
+	}
+	return &Obligation{Func: "lemma." + l.Name, Name: "lemma." + l.Name, Kind: "lemma", Goal: t, Mode: mode, Text: l.Text, Pos: l.Pos, Props: l.Props, Canary: l.Canary, LemmaIndex: idx}, nil
+}
+
+func cmdCheck(prop, tier string) int {
+	fmt.Fprintln(os.Stderr, "check: not implemented yet")
+	return 2
 }
